@@ -4,3 +4,9 @@
         error is Unbounded <==> r is Unbounded,
         error is Infeasible <==> r is Infeasible,
         (error is Other || error is Str) <==> r is Other,
+@fn variable_definition -> r
+    ensures r.gname == name@,
+        variable_type is Boolean ==> r.gint && r.gmin == Ext::Fin(0real) && r.gmax == Ext::Fin(1real),
+        variable_type matches VariableType::IntegerRange(lo, hi) ==> r.gint && r.gmin == Ext::Fin(*lo as real) && r.gmax == Ext::Fin(*hi as real),
+        variable_type matches VariableType::Real(lo, hi) ==> !r.gint && r.gmin == fv(*lo) && r.gmax == fv(*hi),
+        variable_type matches VariableType::NonNegativeReal(lo, hi) ==> !r.gint && r.gmin == fv(*lo) && r.gmax == fv(*hi),
